@@ -254,6 +254,26 @@ class HistGen:
                 f.update(sh)
                 self.ops.append(("query", f, [], 1, 0, 0, self.now))
 
+    def g_expired(self):
+        """an event carrying a NIP-40 expiration tag in the past (the store does not interpret it: the event is stored and
+        retrievable like any other), then another author's deletion request naming it, then a lookup"""
+        r = self.r
+        a, b = r.sample(AUTHORS, 2)
+        kind = r.choice([1, 1, 7, 30023])
+        tags = [[b"expiration", r.choice([b"1", b"1000", b"1700000000", b"0"])]]
+        if kind == 30023:
+            tags = [[b"d", b"exp"]] + tags
+        if r.random() < 0.3:
+            tags.append([b"t", b"x"])
+        v = self.new_event(kind=kind, pk=a, created=r.choice([500, 1000, 2000]), tags=tags)
+        self.op_store(v)
+        dt = [[b"e", v["id"].hex().encode()]]
+        if r.random() < 0.3:
+            dt.insert(r.randrange(2), [b"e", b"00" * 32])
+        self.op_store(self.new_event(kind=5, pk=b, created=3000, tags=dt))
+        base = {"ids": [v["id"]], "authors": [], "kinds": [], "tags": [], "since": None, "until": None, "limit": None}
+        self.ops.append(("query", base, [], 1, 0, 0, self.now))
+
     GHOST_SHAPES = ["empty-first", "empty-mid", "nameless-value", "valueless-first", "repeat", "long-name-first", "plain"]
     GHOST_HOWS = ["remove", "delete", "replace", "vanish"]
 
@@ -402,7 +422,7 @@ class HistGen:
         self.ops.append(("query", f, [], 1, 0, 0, self.now))
 
     GENS = {"new": g_store_new, "addr": g_store_addr, "resubmit": g_store_resubmit, "delete": g_delete,
-            "remove": g_remove, "vanish": g_vanish, "giftwrap": g_giftwrap, "reopen": g_reopen, "rebuild": g_rebuild,
+            "remove": g_remove, "vanish": g_vanish, "expired": g_expired, "giftwrap": g_giftwrap, "reopen": g_reopen, "rebuild": g_rebuild,
             "xput": g_xput, "query": g_query, "qown": g_query_own, "ghost": g_ghost}
 
     def run(self):
